@@ -55,7 +55,7 @@ def key_defects(node, d, path="d"):
     return bad
 
 
-def run(ctx):
+def _run_main(ctx):
     import nir
     from core import run_graph_ops
     rng = ctx.rng
@@ -165,3 +165,11 @@ def _scribble(d):
         for v in d:
             _scribble(v)
         d.append("scribble")
+
+
+def run(ctx):
+    _run_main(ctx)
+    # history independence: the same call on a live graph object with a history of edits / calls and on a twin rebuilt
+    # from its public state (harness/history.py)
+    import history
+    history.run(ctx, ["to_dict", "dict_rt"], {"to_dict": "to_dict of a graph object with a history", "dict_rt": "from_dict(to_dict(g)) of a graph object with a history"})
